@@ -21,11 +21,8 @@ def main():
     for first in range(7):
         jobs.append(Job(P + 'VerifC07Sequence', (2, first, 0), cfg=cfg, max_paths=200000))
         jobs.append(Job(P + 'VerifC07Sequence', (3, first, 1), cfg=cfg, max_paths=400000))
-        if t == 'thorough':
-            # length 4 on one contact (lean variant, refused intermediate steps pruned), split over 3 processes per first operation;
-            # length 3 on two contacts with free metadata is ~35 CPU-minutes per first operation and is not registered
-            for i in range(3):
-                jobs.append(Job(P + 'VerifC07Sequence', (4, first, 1), cfg=cfg, max_paths=2000000, shard=(i, 3), label='VerifC07Sequence(4,%d,1)#%d/3' % (first, i)))
+        # deeper bounds (length 4 on one contact; length 3 on two contacts with free metadata) did not finish within 45 minutes on
+        # 16 cores and are not registered: the thorough tier runs the same grid as the quick tier
     jobs.append(Job(P + 'VerifC07Witness', (), witness=True, cfg=cfg))
     res = chk.run_jobs(jobs)
     finish(chk, res, t,
